@@ -38,6 +38,7 @@ Don't use for: optimization (MILP), continuous variables (simplex/gradient).
 from collections.abc import Sequence
 from heapq import heapify, heappop, heappush
 
+from solvor import _verif
 from solvor.types import Result, Status
 
 __all__ = ["solve_sat"]
@@ -351,6 +352,11 @@ def solve_sat(
         return learned_lits, bt_level, lbd
 
     def pick_var():
+        if _verif.ACTIVE:
+            forced = _verif.choose("sat.pick_var", 0, vals=vals, phase=phase, n_vars=n_vars, level=len(trail_lim))
+            if forced:
+                in_heap[forced] = False
+                return forced
         while var_heap:
             _, var = heappop(var_heap)
             in_heap[var] = False
@@ -385,6 +391,9 @@ def solve_sat(
             elif len(clause) > 2:
                 add_watch(clause[0], idx)
                 add_watch(clause[1], idx)
+
+        if _verif.ACTIVE:
+            _verif.emit("sat.reduce_db", before=len(indexed), after=len(learned))
 
     unit_clauses = []
     for i, clause in enumerate(clauses):
@@ -429,6 +438,8 @@ def solve_sat(
                 return Result(None, 0, decisions, propagations, Status.INFEASIBLE)
 
             learned_clause, bt_level, lbd = analyze(conflict)
+            if _verif.ACTIVE:
+                _verif.emit("sat.conflict", level=dec_level, bt_level=bt_level, learned=learned_clause, conflicts=conflicts)
 
             if learned_clause is None:
                 if all_solutions:
@@ -468,6 +479,8 @@ def solve_sat(
                         )
                     return Result(None, 0, decisions, propagations, Status.MAX_ITER)
 
+                if _verif.ACTIVE:
+                    _verif.emit("sat.restart", restarts=restarts + 1, learned=len(learned))
                 restarts += 1
                 luby_idx += 1
                 next_restart = luby_factor * luby(luby_idx)
@@ -484,6 +497,8 @@ def solve_sat(
         if var == 0:
             sol = {v: vals[v] == 1 for v in range(1, n_vars + 1) if vals[v] != UNDEF}
             all_solutions.append(sol)
+            if _verif.ACTIVE:
+                _verif.emit("sat.model", n=len(all_solutions), level=len(trail_lim))
 
             if len(all_solutions) >= solution_limit:
                 if solution_limit == 1:
